@@ -382,8 +382,8 @@ func RunCheck(o Options) int {
 			return 2
 		}
 		var w struct {
-			Case Case  `json:"case"`
-			Seed int64 `json:"seed"`
+			Case Case   `json:"case"`
+			Seed int64  `json:"seed"`
 			Tier string `json:"tier"`
 		}
 		if err := json.Unmarshal(b, &w); err != nil {
@@ -628,16 +628,16 @@ func RunCheck(o Options) int {
 	}
 
 	cov := map[string]any{
-		"evaluations":         len(results),
-		"distinct_nontrivial": len(classes),
-		"rule":                chk.Rule,
-		"samples":             samples,
-		"observed":            obs,
-		"inconclusive":        len(inconcl),
-		"inconclusive_cases":  firstN(inconcl, 20),
-		"known_findings_hit":  knownHit,
+		"evaluations":          len(results),
+		"distinct_nontrivial":  len(classes),
+		"rule":                 chk.Rule,
+		"samples":              samples,
+		"observed":             obs,
+		"inconclusive":         len(inconcl),
+		"inconclusive_cases":   firstN(inconcl, 20),
+		"known_findings_hit":   knownHit,
 		"watchdog_unconfirmed": unconfirmed,
-		"exhaustive":          false,
+		"exhaustive":           false,
 	}
 	if chk.Race {
 		cov["race_report_blocks"] = raceBlocks
